@@ -105,3 +105,73 @@ contract(MS + 'ClusterParameters.deep_copy', props=['C13'], params=dict(self='ob
                   "len(result._member_points) == len(self._member_points)",
                   "implies(ascending(self._member_points), eqcontent(result._member_points, self._member_points))",
                   "unchanged(self, self._member_points)"])
+
+specfn('membership_ok', "lambda m: forall(0, len(m.clusters), lambda k: not isnone(m.clusters[k]) and "
+       "members_ok(m.clusters[k]._member_points, m._point_labels, k))")
+specfn('distinct_clusters', "lambda m: forall(lambda k1, k2: implies(0 <= k1 and k1 < k2 and k2 < len(m.clusters), "
+       "not same(m.clusters[k1], m.clusters[k2]))) and forall(0, len(m.clusters), lambda k: not isnone(m.clusters[k]))")
+
+_MS_PARAMS = dict(self='obj:ModelState', arguments='obj:UserArguments', clusters='list[obj:ClusterParameters]',
+                  label_assignment_cost='real', point_labels='list[int]', point_log_likelihood='arr2[real]',
+                  stacked_training_data='arr2[real]')
+contract(MS + 'ModelState.__init__', props=['C13'], params=_MS_PARAMS, inline=True, assigns=['self'],
+         ghost={'nullable': ['arguments', 'clusters', 'point_labels', 'point_log_likelihood', 'stacked_training_data']})
+contract(MS + 'ModelState.point_labels', props=['C13'], params=dict(self='obj:ModelState'), returns='list[int]', inline=True)
+
+contract(MS + 'ModelState.empty_model', props=['C13', 'C09'],
+         params=dict(user_args='obj:UserArguments', stacked_training_data='arr2[real]'), returns='obj:ModelState',
+         requires=["user_args.num_clusters >= 0"],
+         ghost={'comps': {1: dict(kind='list[obj:ClusterParameters]',
+                                  inv=["len(_comp1) == i", "forall(0, i, lambda k: fresh(_comp1[k]) and not isnone(_comp1[k]) and "
+                                       "fresh(_comp1[k]._member_points) and len(_comp1[k]._member_points) == 0)",
+                                       "forall(lambda k1, k2: implies(0 <= k1 and k1 < k2 and k2 < i, not same(_comp1[k1], _comp1[k2])))",
+                                       "forall(0, i, lambda k: not same(_comp1[k], _comp1))"])}},
+         ensures=["fresh(result)", "same(result.arguments, user_args)", "same(result.stacked_training_data, stacked_training_data)",
+                  "isnone(result._point_labels)", "fresh(result.clusters)", "len(result.clusters) == user_args.num_clusters",
+                  "distinct_clusters(result)",
+                  "forall(0, len(result.clusters), lambda k: fresh(result.clusters[k]) and len(result.clusters[k]._member_points) == 0)"])
+
+def _dd(n):
+    L = "self._point_labels"
+    return [c.replace('@N', n).replace('@L', L) for c in (
+        "forall(lambda k: implies(isnone(members[k]), cnt(@L, k, @N) == 0))",
+        "forall(lambda k: implies(not isnone(members[k]), fresh(members[k]) and len(members[k]) == cnt(@L, k, @N)))",
+        "forall(lambda k, p: implies(0 <= p and p < @N and @L[p] == k, cnt(@L, k, p) < cnt(@L, k, @N)))",
+        "forall(lambda k, p: implies(not isnone(members[k]) and 0 <= p and p < @N and @L[p] == k, "
+        "members[k][cnt(@L, k, p)] == p))",
+        "forall(lambda k, j: implies(not isnone(members[k]) and 0 <= j and j < len(members[k]), "
+        "0 <= members[k][j] and members[k][j] < @N and @L[members[k][j]] == k))",
+        "forall(lambda k, j1, j2: implies(not isnone(members[k]) and 0 <= j1 and j1 < j2 and j2 < len(members[k]), "
+        "members[k][j1] < members[k][j2]))",
+        "forall(lambda k1, k2: implies(k1 != k2 and not isnone(members[k1]), not same(members[k1], members[k2])))")]
+
+
+contract(MS + 'ModelState._update_cluster_membership', props=['C13'],
+         params=dict(self='obj:ModelState'),
+         requires=["not isnone(self.clusters)", "not isnone(self.arguments)", "len(self.clusters) == self.arguments.num_clusters",
+                   "distinct_clusters(self)"],
+         assigns=['self.clusters[*]._member_points'],
+         ghost={'kind:members': 'ddict[int]'},
+         ensures=[("membership-rederived-from-labels", "implies(not isnone(self._point_labels) and len(self._point_labels) > 0, membership_ok(self))"),
+                  ("no-labels-means-empty-clusters", "implies(isnone(self._point_labels) or len(self._point_labels) == 0, "
+                   "forall(0, len(self.clusters), lambda k: len(self.clusters[k]._member_points) == 0))"),
+                  "implies(not isnone(self._point_labels), unchanged(self._point_labels))", "unchanged(self.clusters)"],
+         loops={1: dict(inv=["forall(0, _k, lambda k: len(self.clusters[k]._member_points) == 0)"],
+                        modifies=['self.clusters[*]._member_points']),
+                2: dict(inv=_dd('_k'), modifies=['members']),
+                3: dict(inv=["forall(0, cluster_id, lambda k: members_ok(self.clusters[k]._member_points, self._point_labels, k))"]
+                        + _dd('len(self._point_labels)'),
+                        modifies=['self.clusters[*]._member_points', 'members'])})
+
+contract(MS + 'ModelState.point_labels.setter', props=['C13'],
+         params=dict(self='obj:ModelState', new_labels='list[int]'),
+         requires=["not isnone(new_labels)", "not isnone(self.clusters)", "not isnone(self.arguments)",
+                   "len(self.clusters) == self.arguments.num_clusters", "distinct_clusters(self)"],
+         assigns=['self._point_labels', 'self.clusters[*]._member_points'],
+         ensures=[("labels-stored", "not isnone(self._point_labels) and len(self._point_labels) == len(new_labels) and "
+                   "forall(0, len(new_labels), lambda p: self._point_labels[p] == new_labels[p])"),
+                  # the early-out `if new_labels != self._point_labels` makes re-derivation conditional: membership is
+                  # consistent afterwards provided it was consistent before or the labelling actually changed
+                  ("membership-rederived-immediately", "implies(len(new_labels) > 0 and (old(membership_ok(self)) or "
+                   "not old(new_labels == self._point_labels)), membership_ok(self))"),
+                  "unchanged(new_labels)", "unchanged(self.clusters)"])
